@@ -100,13 +100,13 @@ def analyzer_dispatch(ck):
 def run(ck):
     r = regen.regen_kernels()
     ck.obligation("translate:T1 kernels -> gen/KernelsGen.v", r["ok"], r["error"] or "")
-    ck.build_theorems("Properties/C08.v", deps=["gen/KernelsGen.vo", "GenRef.vo", "KernelThms2.vo"])
+    ck.build_theorems("Properties/C08.v", deps=["gen/KernelsGen.vo", "GenRef.vo", "KernelThms2.vo", "DetrendPoly.vo"])
     basis_contract(ck)
     trend_sweep(ck)
     analyzer_dispatch(ck)
     ck.cov["rule"] = "kernel cases (L in {5..257}, 4 backends, auto+cross): add degree<=p polynomials of size 1 or 1e3 to both channels (own coefficients) -> unchanged within the rounding budget of the trend; degree p+1 -> changes as the definition predicts; QR basis contract; analyzer dispatch per order on 3 backends"
     ck.samples = [dict(test="order 2, csd, numba, quadratic trends of size 1e3 on both channels")]
-    ck.assumptions += ["PARTIAL: orders 1,2 rely on the LAPACK QR contract (validated numerically each run), proved only for order 0 and -1", "rounding relative to the size of the added trend"]
+    ck.assumptions += ["orders 1,2 are proved for any basis with orthonormal columns; that LAPACK's Q is orthonormal and spans 1,t,t^2 is a contract validated numerically each run", "rounding relative to the size of the added trend"]
 
 
 def replay(rec):
